@@ -1179,6 +1179,102 @@ pub fn gen_volume(seed: u64) -> Generated {
     Generated { spec: RunSpec { build_on_thread: vec![false], slots: vec![cfg], threads: vec![ThreadSpec { ops, crash_on_fault: false }], sched: Sched::Serial { order: vec![0] }, stall: None, ballast: 0 }, faults }
 }
 
+/// Huge-axis scenario (C17, once per block): an axis of 1024-1400 knots (code that only switches on
+/// above a size threshold: tables, hints, block-wise loops), hot keys CLUSTERED around two places
+/// of the axis - knots, the floats next to them, points inside the neighbouring intervals - and
+/// short ascending / descending sweeps across them, from one or two clients.
+pub fn gen_huge(seed: u64) -> Generated {
+    let mut r = Rng::new(seed);
+    let r = &mut r;
+    let faults = Faults { oob: false, badbuf: false, strat_err: false, strat_panic: false, crash: false, stall: false, cow: false, badidx: false, mismatch: false, sibling: false, reenter: false, elem_panic: false };
+    let kind = [Kind::Linear, Kind::Bilinear, Kind::Spline][r.weighted(&[3, 2, 2])];
+    let two = kind.is_2d();
+    let elem = if kind != Kind::Spline && r.chance(1, 3) { Elem::I64 } else { Elem::F64 };
+    let int = elem == Elem::I64;
+    let n = r.range(1024, 1400);
+    let m = if two { r.range(3, 5) } else { 0 };
+    let axis = |r: &mut Rng, len: usize| -> Vec<f64> {
+        let mut v = vec![];
+        let mut x = if int { r.below(11) as f64 - 5.0 } else { dyadic(r, 4) };
+        for _ in 0..len {
+            v.push(x);
+            x += if int { r.range(2, 5) as f64 } else { 0.25 + r.below(12) as f64 * 0.25 };
+        }
+        v
+    };
+    let (ax, ay) = (axis(r, n), if two { axis(r, m) } else { vec![] });
+    let lanes = if two || int { 1 } else { r.range(1, 2) };
+    let (dimty, shape) = if two { (DimTy::Ix2, vec![n, m]) } else if lanes == 1 { (DimTy::Ix1, vec![n]) } else { (DimTy::Ix2, vec![n, lanes]) };
+    let total: usize = shape.iter().product();
+    let data: Vec<Fb> = (0..total).map(|_| Fb(if int { (r.below(201) as f64) - 100.0 } else { full_mantissa(r, 10.0) })).collect();
+    let cfg = SlotCfg {
+        kind,
+        elem,
+        storage: Storage::Owned,
+        dimty,
+        shape,
+        x: Some(ax.iter().map(|v| Fb(*v)).collect()),
+        y: if two { Some(ay.iter().map(|v| Fb(*v)).collect()) } else { None },
+        data,
+        extrapolate: r.chance(1, 2),
+        bc: if kind == Kind::Spline { [Bc::NotAKnot, Bc::Natural, Bc::Clamped][r.below(3)].clone() } else { Bc::NotAKnot },
+        probe_min: 0,
+        build_plan: BuildPlan::Ok,
+        data_lay: Lay::C,
+        x_lay: Lay::C,
+        build_order: 0,
+    };
+    // clustered keys
+    let mut keys: Vec<f64> = vec![];
+    for _ in 0..2 {
+        let c = r.range(3, n - 4);
+        for j in c - 2..=c + 2 {
+            keys.push(ax[j]);
+            if !int {
+                keys.push(next_down(ax[j]));
+                keys.push(next_up(ax[j]));
+                keys.push(ax[j] + (ax[j + 1] - ax[j]) * *r.pick(&[0.5, 0.25, 0.75]));
+            } else {
+                keys.push(ax[j] + 1.0);
+            }
+        }
+    }
+    let ykeys: Vec<f64> = if two { let mut k = ay.clone(); if !int { k.push(ay[0] + (ay[1] - ay[0]) * 0.5); k.push(ay[1] + (ay[2] - ay[1]) * 0.25); } k } else { vec![0.0] };
+    let scalar_ok = (two && cfg.shape.len() == 2) || (!two && cfg.shape.len() == 1);
+    let mk = |call: Call| Op { slot: 0, call, plan: vec![], yield_mask: 0, check_acc: false, elem_fault: 0 };
+    let n_threads = r.range(1, 2);
+    let threads: Vec<ThreadSpec> = (0..n_threads)
+        .map(|_| {
+            let mut ops = vec![];
+            for _ in 0..r.range(20, 40) {
+                let x = Fb(*r.pick(&keys));
+                let y = Fb(*r.pick(&ykeys));
+                let call = match r.weighted(&[4, 3, 4]) {
+                    0 if scalar_ok => Call::Scalar { x, y },
+                    0 | 1 => Call::Interp { x, y },
+                    _ => {
+                        // a short sweep: consecutive keys in ascending or descending order
+                        let len = r.range(2, 6).min(keys.len());
+                        let start = r.below(keys.len() - len + 1);
+                        let mut xs: Vec<f64> = keys[start..start + len].to_vec();
+                        xs.sort_by(|a, b| a.partial_cmp(b).unwrap());
+                        if r.chance(1, 2) {
+                            xs.reverse();
+                        }
+                        let ys: Vec<Fb> = if two { (0..len).map(|_| Fb(*r.pick(&ykeys))).collect() } else { vec![] };
+                        Call::Array { q: QSpec { ty: *r.pick(&[QTy::Q1, QTy::Q1, QTy::QDyn]), shape: vec![len], xs: xs.into_iter().map(Fb).collect(), ys, ys_shape: None, lay: Lay::C, ys_lay: Lay::C } }
+                    }
+                };
+                ops.push(mk(call));
+            }
+            ThreadSpec { ops, crash_on_fault: false }
+        })
+        .collect();
+    let horizon: usize = threads.iter().map(|t| t.ops.len() * 2 + 1).sum();
+    let sched = gen_sched(r, n_threads, horizon);
+    Generated { spec: RunSpec { build_on_thread: vec![false], slots: vec![cfg], threads, sched, stall: None, ballast: 0 }, faults }
+}
+
 /// one complete run specification from one seed
 pub fn gen_run(seed: u64, mode: Mode) -> Generated {
     gen_run_inner(seed, mode)
